@@ -174,6 +174,26 @@ void parity_size(struct snapraid_parity_handle* handle, data_off_t* out_size)
 	*out_size = size;
 }
 
+int parity_is_stored(struct snapraid_parity_handle* handle, block_off_t pos, uint32_t block_size)
+{
+	unsigned s;
+	data_off_t offset;
+
+	offset = pos * (data_off_t)block_size;
+
+	/* search the split with the same logic used to read and write */
+	for (s = 0; s < handle->split_mac; ++s) {
+		struct snapraid_split_handle* split = &handle->split_map[s];
+
+		if (offset < split->size)
+			return offset + block_size <= split->valid_size;
+
+		offset -= split->size;
+	}
+
+	return 0;
+}
+
 int parity_create(struct snapraid_parity_handle* handle, const struct snapraid_parity* parity, unsigned level, int mode, uint32_t block_size, data_off_t limit_size)
 {
 	unsigned s;
